@@ -12,6 +12,7 @@ import CogentModel.Proofs.C04GenAux
 import CogentModel.Spec.FeatureView
 import CogentModel.Proofs.FeatureView
 import CogentModel.Proofs.FeatureOnView
+import CogentModel.Proofs.FeatureAdd
 namespace CogentModel.C04
 open CogentModel.View CogentModel.FeatureView CogentModel.FeatureSpec CogentModel.C04Gen
 
@@ -178,6 +179,61 @@ theorem generated_query_window_exact (v : View) (h : UnitView v) (a b : Int) (ha
   exact ⟨queryWindow_exact v h a b ha hab hb hoff, rfl⟩
 
 example : GenNew.queryWindow { start := -3, stop := -9, step := -1, offset := 5, seqLen := 10 } (some 1) (some 4) = .ok (9, 12) := by
+  decide
+
+/-! ## `Sequence.add_feature` (translated whole: the db record AND the returned Feature) -/
+
+/-- `Sequence.add_feature` of core/sequence.py as translated (with the inlined `annotation_offset` property =
+`self._seq.parent_start`) = the hand model `addFeature` (Model/FeatureAdd.lean), every view, span list and strand -/
+theorem gen_addFeature_old_eq (v : View) (spans : List (Int × Int)) (minus : Bool) :
+    GenOld.addFeature v spans minus = FeatureView.addFeature v spans minus := by
+  unfold GenOld.addFeature FeatureView.addFeature addFeatureRecord addRelSpans
+  simp only [gen_makeFeature_old_eq, sortRows_eq, isReversed]
+  by_cases h : v.step < 0
+  · simp only [h, decide_true, if_true]
+    cases parentStart v with
+    | error e => cases e <;> rfl
+    | ok off => cases minus <;> simp [liftErr] <;> rfl
+  · simp only [h, decide_false, if_false]
+    cases parentStart v with
+    | error e => cases e <;> simp [liftErr]
+    | ok off => simp [liftErr]; rfl
+
+theorem gen_addFeature_new_eq (v : View) (spans : List (Int × Int)) (minus : Bool) :
+    GenNew.addFeature v spans minus = FeatureView.addFeature v spans minus := by
+  unfold GenNew.addFeature FeatureView.addFeature addFeatureRecord addRelSpans
+  simp only [gen_makeFeature_new_eq, sortRows_eq, isReversed]
+  by_cases h : v.step < 0
+  · simp only [h, decide_true, if_true]
+    cases parentStart v with
+    | error e => cases e <;> rfl
+    | ok off => cases minus <;> simp [liftErr] <;> rfl
+  · simp only [h, decide_false, if_false]
+    cases parentStart v with
+    | error e => cases e <;> simp [liftErr]
+    | ok off => simp [liftErr]; rfl
+
+-- `s[3:11].rc()` of a 15-mer: spans (1,3),(5,8) as seen on the view; record in absolute plus-strand coordinates, strand
+-- flipped; the returned feature has exactly the spans given and is not reversed relative to the view
+example : GenOld.addFeature { start := -5, stop := -13, step := -1, offset := 0, seqLen := 15 } [(1, 3), (5, 8)] false
+    = .ok (([(3, 6), (8, 10)], true), { spans := [.span 1 3, .span 5 8], reversed := false }) := by decide
+
+/-- `added_feature_denotes_view_spans` restated on the TRANSLATED code, and extended to the Feature `add_feature`
+itself returns: on every unit-stride view (forward / rc'd, sliced, with offset) the translated `add_feature` does not
+raise, the Feature it returns IS the feature the translated `get_features` loop builds from the record it wrote
+(old and new module), its real spans are exactly the spans given and it is reversed iff the strand given is `-`. -/
+theorem generated_added_feature_denotes_view_spans (v : View) (h : UnitView v) (hl : 0 < len v) (hoff : 0 ≤ v.offset)
+    (minus : Bool) (spans : List (Int × Int)) (hs : ViewSpans (len v) spans) :
+    ∃ db dm f, GenOld.addFeature v spans minus = .ok ((db, dm), f) ∧ GenNew.addFeature v spans minus = .ok ((db, dm), f) ∧
+      GenOld.featureOnView v dm db = .ok f ∧ GenNew.featureOnView v dm db = .ok f ∧
+      sliceIdx f = spans.flatMap (fun sp => seg sp.1 sp.2) ∧ f.reversed = minus := by
+  obtain ⟨db, dm, f, h1, h2, h3, h4⟩ := addFeature_spec v h hl hoff minus spans hs
+  exact ⟨db, dm, f, by rw [gen_addFeature_old_eq, h1], by rw [gen_addFeature_new_eq, h1],
+    by rw [gen_featureOnView_old_eq, h2], by rw [gen_featureOnView_new_eq, h2], by rw [sliceIdx_eq, h3], h4⟩
+
+example : (match GenNew.addFeature { start := 3, stop := 11, step := 1, offset := 4, seqLen := 15 } [(1, 3), (5, 8)] true with
+      | .ok ((db, dm), f) => db == [(8, 10), (12, 15)] && dm && GenNew.featureOnView { start := 3, stop := 11, step := 1, offset := 4, seqLen := 15 } dm db == .ok f
+      | .error _ => false) = true := by
   decide
 
 end CogentModel.C04
